@@ -30,6 +30,10 @@ def body_factory(tier, seed):
                                                            "observation": obs, "info": info})
             return
         GD.run_cases(rep, cases, PROP, PROP, ORACLE, async_modes=modes, view=VIEW, kinds=KINDS)
+        # the outbound half (call()): histories on a real endpoint under the virtual clock
+        from harness import gen_history as GH
+        hs = GH.HGen(tier, seed).all()[: (30 if tier == "quick" else 300)]
+        GH.run_histories(rep, hs, PROP + "h", PROP, O.c16_outbound, "VH04")
         for c in (cases[25], cases[len(cases) // 2], cases[-1]):
             rep.sample({"stratum": c[0], "version": c[1], "frame": str(c[3])[:200]})
     return body
@@ -40,7 +44,7 @@ KINDS = ("skip","payload-skip","bad-req","bad-res","ok")
 
 
 def run(rep, tier, seed):
-    return C.standard_run(rep, PROP, ["Model/CaseDispatch.vo"], body_factory(tier, seed), rule=RULE)
+    return C.standard_run(rep, PROP, ["Model/CaseDispatch.vo", "Model/CaseHistory.vo"], body_factory(tier, seed), rule=RULE)
 
 
 def replay(d):
